@@ -910,6 +910,14 @@ def check_C06(replay=None):
     events += parallel(loadf, specs, 8)
     # (3b) the same bytes through a named pipe
     _env_events(chk, {"fifo"})
+    # (3c) the implicit HALT behind the image is there whatever the image's own last word is: images that jump to the word after their end
+    for tag, words in (("ends-in-halt", [0xE002, 0xC000, 0xF025]), ("ends-in-data", [0xE002, 0xC000, 0x1234]), ("br-over-halt", [0x5020, 0x0401, 0xF025]),
+                       ("single-jump", [0xE001, 0xC000])):
+        # E002 LEA R0,#2 ; C000 JMP R0 -> the word after a 3-word image. 5020 AND R0,R0,#0 ; 0401 BRz #1 -> over the final HALT. E001 LEA R0,#1; C000 JMP R0 -> x3002
+        name = os.path.join(ld, "jump_%s.lc3" % tag)
+        open(name, "wb").write(bytes([0x30, 0x00]) + b"".join(bytes([w >> 8, w & 0xFF]) for w in words))
+        code, out, err = vlib.run_lace(["run", "--minimal", name], timeout=60)
+        events.append({"ev": "loadrun", "tag": tag, "code": code, "halted": b"Halted" in out})
     # (4) sub-command / extension dispatch (spec growth beyond the listed property)
     dd = _wpath("c06_dispatch")
     _shutil.rmtree(dd, ignore_errors=True)
@@ -1028,6 +1036,16 @@ def check_C07(replay=None):
                 "run": rn[0] != 1 and rn[0] != 101, "panic": any(x[0] in (101, -1) or x[0] < -1 for x in (ck, cp, rn)),
                 "codes": [ck[0], cp[0], rn[0]], "src": c["src"]}
     events = parallel(agree, jobs, 8)
+    # sources that are not valid UTF-8 (a stray Latin-1 byte in a comment, in a string, in code): nobody may accept what the others refuse
+    for k, raw in enumerate([b"halt ; caf\xe9\n", b"halt\n.stringz \"caf\xe9\"\n", b"halt\nl\xe9 add r0 r0 r0\n", b"\xff\xfehalt\n", b"halt\n; \xc3\n", b"halt\n;\xf0\x9f\x98\n"]):
+        pth = os.path.join(d, "raw%d.asm" % k)
+        open(pth, "wb").write(raw)
+        for f in (False, True):
+            ck = vlib.run_lace(["check"] + _flag(f) + [pth])
+            cp = vlib.run_lace(["compile"] + _flag(f) + [pth, pth[:-4] + ".lc3"])
+            rn = vlib.run_lace(["run", "--minimal"] + _flag(f) + [pth])
+            events.append({"ev": "agree_raw", "tag": "raw%d" % k, "check": ck[0] == 0, "compile": cp[0] == 0, "run": rn[0] != 1 and rn[0] != 101,
+                           "panic": any(x[0] in (101, -1) or x[0] < -1 for x in (ck, cp, rn)), "codes": [ck[0], cp[0], rn[0]]})
     events += _watch_smoke(chk)
     _cli_validate(chk, events, "agree")
     chk.distinct = max(chk.distinct, 2)
@@ -1093,6 +1111,45 @@ def _compile_syscalls(log, marker, dest):
     return opens, evs
 
 
+def _c08_pipegone(c, dest, base):
+    """stdout is a pipe; its reader reads the first message and leaves BEFORE the source can be assembled (the source comes through a FIFO
+    that is only fed afterwards): every later message hits a broken pipe."""
+    import threading
+    fifo = base + ".src.asm"
+    os.mkfifo(fifo)
+    r, w = os.pipe()
+    p = _sp.Popen([vlib.LACE_BIN, "compile"] + _flag(c["stack"]) + [fifo, dest], stdout=w, stderr=_sp.PIPE, cwd=WORK)
+    os.close(w)
+    first = b""
+    while not first.endswith(b"\n"):
+        ch = os.read(r, 1)
+        if not ch:
+            break
+        first += ch
+    os.close(r)                                   # the reader is gone
+
+    def feed():
+        try:
+            with open(fifo, "w") as f:
+                f.write(c["src"])
+        except OSError:
+            pass
+    t = threading.Thread(target=feed, daemon=True)
+    t.start()
+    try:
+        _, err = p.communicate(timeout=120)
+        code = p.returncode
+    except _sp.TimeoutExpired:
+        p.kill()
+        p.communicate()
+        raise vlib.ToolError("lace compile (source through a FIFO) did not finish")
+    t.join(5)
+    os.remove(fifo)
+    after = list(open(dest, "rb").read()) if os.path.exists(dest) else [-1]
+    return [{"ev": "atomic", "tag": c["tag"] + ":absent-pipegone", "ast": c["ast"], "stack": c["stack"], "dest": "absent-pipegone", "code": code,
+             "before": [-1], "after": after, "opens": -1, "litter": 0, "src": c["src"]}]
+
+
 def check_C08(replay=None):
     chk = Check("C08", level="fault_enumeration")
     chk.rule = ("fault point = (source whose out-of-range label reference sits at statement position p for each PC-relative instruction, or a valid source) x destination in {absent, existing file, existing longer object, /dev/full, path in a missing directory, "
@@ -1126,6 +1183,9 @@ def check_C08(replay=None):
     # ... and a stdout that stops accepting data AFTER the first message (a regular file at its size limit): what is printed once
     # the object is in place must not turn a finished compile into a failed one
     jobs += [(c, dk) for i, c in enumerate(man) for dk in ("absent-msgfail", "file-msgfail") if thorough or i % 3 != 1]
+    # the destination is a symbolic link to a regular file (writable / not writable); names mixing 1-, 2-, 3- and 4-byte characters;
+    # a stdout pipe whose reader has left once the first message was printed
+    jobs += [(c, dk) for i, c in enumerate(man) for dk in ("symlink", "symlink-fsize", "mixedutf8", "absent-pipegone") if thorough or i % 4 == 0]
 
     def atomic(job):
         c, dk = job
@@ -1152,7 +1212,18 @@ def check_C08(replay=None):
             dest = os.fsencode(base) + b"\xff\xfe.lc3"          # a file name that is not valid UTF-8
         elif dk == "longutf8":
             dest = base + "\u00e9" * 45 + ".lc3"                 # long, multi-byte characters all along
-        elif dk in ("absent-outfull", "absent-fsize", "absent-msgfail"):
+        elif dk in ("symlink", "symlink-fsize"):
+            real = base + ".real.bin"
+            open(real, "wb").write(old)
+            dest = base + ".lc3"
+            if os.path.lexists(dest):
+                os.remove(dest)
+            os.symlink(real, dest)
+        elif dk == "mixedutf8":
+            # 2-, 3-, 4- and 1-byte characters in turn, then j ASCII characters: over the cases every byte alignment of the name's tail occurs
+            j = (int(_re.findall(r"_(\d+)\.asm$", c["path"])[0]) // 4) % 10
+            dest = base + "\u00e9\u2713\U0001F600a" * 6 + "x" * j + ".lc3"
+        elif dk in ("absent-outfull", "absent-fsize", "absent-msgfail", "absent-pipegone"):
             dest = base + ".lc3"
         elif dk in ("file-outfull", "file-fsize", "file-msgfail"):
             dest = base + ".lc3"
@@ -1164,6 +1235,8 @@ def check_C08(replay=None):
         out_path = None
         if dk.endswith("-fsize"):
             limit = 0
+        if dk == "absent-pipegone":
+            return _c08_pipegone(c, dest, base)
         if dk.endswith("-msgfail"):
             # stdout is a regular file and the size limit lets the first message and the object through, but not the messages
             # printed after the object has been written
@@ -1215,11 +1288,15 @@ def check_C08(replay=None):
         # nothing else may be left behind next to the destination either (temporary files)
         dname = os.path.dirname(base)
         mine = {os.path.basename(dest) if isinstance(dest, str) else None, os.path.basename(out_path) if out_path else None}
-        litter = sorted(n for n in os.listdir(dname) if n.startswith(marker) and n not in mine and not n.endswith(".strace") and "_missing_dir" not in n) if isinstance(dest, str) else []
+        litter = sorted(n for n in os.listdir(dname) if n.startswith(marker) and n not in mine and not n.endswith(".strace") and not n.endswith(".real.bin") and "_missing_dir" not in n) if isinstance(dest, str) else []
         if out_path:
             os.remove(out_path)
         if dk == "devfull":
             after = before = [-2]
+        if dk.startswith("symlink"):
+            # read through the link; the link itself must still be one
+            if not os.path.islink(dest):
+                after = after + [-3]
         ev = {"ev": "atomic", "tag": c["tag"] + ":" + dk, "ast": c["ast"], "stack": c["stack"], "dest": dk, "code": code,
               "before": before, "after": after, "opens": opens, "litter": len(litter), "src": c["src"]}
         evs = [ev]
@@ -1535,6 +1612,22 @@ def check_C05(replay=None):
             chk.samples.append(s)
         os.remove(out)
     _lex_run(chk, [("chars%d" % k, ["--mode", "chars", "--len", 4 if thorough else 3, "--stride", 4, "--phase", k, "--stack", k % 2]) for k in range(4)])
+    # inputs whose SIZE is the point, given to the real binary (a stack overflow aborts the process: only a separate process can observe that)
+    vlib.build(need_cli=True)
+    d = _wpath("c05_cli")
+    _shutil.rmtree(d, ignore_errors=True)
+    os.makedirs(d)
+    big = {"comments": "; c\n" * 60000 + "halt\n", "blank": "\n" * 60000 + "halt\n", "comments-mid": ".fill\n" + "; c\n" * 60000 + "x5\nhalt\n",
+           "comments-only": ";\n" * 200000, "labels": "".join("l%d\n" % i for i in range(30000)) + "halt\n",
+           "one-line": "add r0 r0 r0 " * 30000 + "\n", "nested-colons": ":" * 100000 + "halt\n", "long-comment": ";" + "x" * 2000000 + "\nhalt\n"}
+    evs = []
+    for tag, text in big.items():
+        f = os.path.join(d, tag + ".asm")
+        open(f, "w").write(text)
+        code, out, err = vlib.run_lace(["check", f], timeout=120)
+        evs.append({"ev": "clitotal", "tag": tag, "code": code, "bytes": len(text)})
+    _cli_validate(chk, evs, "clitotal")
+    _shutil.rmtree(d, ignore_errors=True)
     chk.distinct = max(chk.distinct, 2)
     return chk.finish()
 
